@@ -1,6 +1,7 @@
 import Gv.Oracle.Cli
 import Gv.Model.Fmt.Phylip
 import Gv.Model.Fmt.Stockholm
+import Gv.Model.Identical
 import Gv.Gen.FmtFacts
 /-!
 Command-line glue of two commands of property C11 whose bytes are a function of the input only:
@@ -14,7 +15,8 @@ Command-line glue of two commands of property C11 whose bytes are a function of 
   the alignments before it are written, the driver does not compare them).  A negative `n` is not decided here.
 * `goalign identical -c <file>` (cmd/identical.go): `true` / `false`, `Identical` of the first alignment of the
   input and the first alignment of the file: as many rows, and every row of the input has a row of the same name
-  and the same (case-sensitive) sequence in the file; the order of the rows does not matter.
+  and the same (case-sensitive) sequence in the file; the order of the rows does not matter
+  (`Model/Identical.lean` `identicalRows`; what it decides: `Props/C01` `identical_iff_same_records`, `identicalRows_spec`).
 
 * `goalign stats nalign -p`: the number of alignments of a Phylip input.
 
@@ -23,10 +25,6 @@ Needs the format facts: only the C11 oracle and the complete one link it.
 namespace Gv.Oracle.CliDivideOps
 open Gv Gv.Oracle Gv.Model Gv.Oracle.DetOps Gv.Oracle.CliOps
 open Gv.Oracle.CliDefaults (effective)
-
-/-- `seqbag.Identical(comp)` -/
-def identicalRows (a comp : Rows) : Bool :=
-  a.length == comp.length && a.all fun r => match findRow r.1 comp with | some s => s == r.2 | none => false
 
 /-- an alignment as the FASTA reader accepts it: at least one row, one length, names all different -/
 def wellFormed (rows : Rows) : Bool :=
